@@ -1360,4 +1360,11 @@ def switch_bbox_epsg_axis_order""", 'C01.a'),
                     ex = task_result.exception
                     async_pool.shutdown(True)""", 'loop variable renamed'),
 
+    M('M-C15h-revert-D18', 'mapproxy/util/async_.py', """        if len(args) == 1:
+            return self._single_call(func, args[0], use_result_objects)""", """        if len(args[0]) == 1:
+            return self._single_call(func, args[0], use_result_objects)""", 'C15.h', 'revert of fix D18'),
+    E('E-C15h-swapped-compare', 'mapproxy/util/async_.py', """        if len(args) == 1:
+            return self._single_call(func, args[0], use_result_objects)""", """        if 1 == len(args):
+            return self._single_call(func, args[0], use_result_objects)""", 'operands swapped'),
+
 ]
